@@ -73,7 +73,13 @@ func (ur *usageTracker) NewReport(serviceName, version, hostname string, now tim
 	if err != nil {
 		return nil, err
 	}
-	// clear the current data points and keep the last data points until we know the report was sent
+	// clear the current data points and keep everything this report contains
+	// until we know the report was sent. That includes what an earlier report
+	// that was never confirmed already carried, otherwise a second failed send
+	// would lose it.
+	for signal, usage := range ur.lastDataPoints {
+		ur.currentDataPoints[signal] += usage
+	}
 	ur.lastDataPoints = ur.currentDataPoints
 	ur.currentDataPoints = make(map[usageSignal]float64)
 	return data, nil
